@@ -154,13 +154,24 @@ impl AsyncRead for Scripted {
 impl AsyncWrite for Scripted {
     fn poll_write(self: Pin<&mut Self>, _cx: &mut Context<'_>, buf: &[u8]) -> Poll<std::io::Result<usize>> {
         let mut st = self.st.borrow_mut();
+        // a transport may accept only a prefix of the offered bytes (deviation: one byte / half)
+        let n = if st.chunking == Chunking::Deviations && buf.len() > 1 {
+            match self.ctx.borrow_mut().dev(3, "write-split") {
+                1 => 1,
+                2 => buf.len() / 2,
+                _ => buf.len(),
+            }
+        } else {
+            buf.len()
+        };
+        let buf = &buf[..n];
         st.written.extend_from_slice(buf);
         if let Some(Ev::Write(w)) = st.log.last_mut() {
             w.extend_from_slice(buf);
         } else {
             st.log.push(Ev::Write(buf.to_vec()));
         }
-        Poll::Ready(Ok(buf.len()))
+        Poll::Ready(Ok(n))
     }
     fn poll_flush(self: Pin<&mut Self>, _cx: &mut Context<'_>) -> Poll<std::io::Result<()>> {
         Poll::Ready(Ok(()))
